@@ -10,6 +10,7 @@ Code  : for each case Avp.new(...).as_bytes() must equal the reference octets; A
 from __future__ import annotations
 
 import json
+import datetime
 import random
 
 from .. import codec, tlc
@@ -145,7 +146,8 @@ def run(tier, seed):
             try:
                 a = Avp.new(e[0], e[1], value=pv)
                 b = a.as_bytes()
-                ck.violation("out_of_domain_accepted:%s" % kind, "value %r of type %s was encoded as %s instead of being rejected" % (pv, kind, b.hex()), {"kind": kind, "value": str(pv)})
+                far = kind == "time" and not (datetime.datetime(1900, 1, 1) <= pv.replace(tzinfo=None) < datetime.datetime(2172, 3, 15))
+                ck.violation("out_of_domain_accepted:%s%s" % (kind, ":outside_1900_2172" if far else ""), "value %r of type %s was encoded as %s instead of being rejected" % (pv, kind, b.hex()), {"kind": kind, "value": str(pv)})
             except Exception:
                 pass
     # (5) unknown codes decode as the generic class and re-encode; run-time registered definitions
